@@ -123,6 +123,11 @@ pub trait Prop: Sync + Send + 'static {
     fn mix(&self, _prev: &Self::Case, _cur: &Self::Case) -> Vec<Self::Case> {
         Vec::new()
     }
+    /// Repeat a share of the run in a fresh process in which the harness never calls
+    /// `RoundingMode::set_default` (see `pristine()`).
+    fn pristine_run(&self) -> bool {
+        true
+    }
     fn max_jobs(&self) -> Option<usize> {
         None
     }
@@ -391,6 +396,9 @@ struct ReplayFile<C> {
     failures: Vec<(String, String)>,
     #[serde(default)]
     origin: String,
+    /// found in (and to be replayed in) a process that never calls set_default
+    #[serde(default)]
+    pristine: bool,
 }
 
 /// A failure that only shows after a particular sequence of earlier cases on the same
@@ -403,6 +411,8 @@ struct HistoryFile<C> {
     failures: Vec<(String, String)>,
     #[serde(default)]
     origin: String,
+    #[serde(default)]
+    pristine: bool,
 }
 
 const HISTORY_WINDOW: usize = 64;
@@ -447,6 +457,7 @@ fn write_replay<C: Serialize + Hash>(
         case,
         failures: failures.iter().map(|f| (f.sig.clone(), f.detail.clone())).collect(),
         origin: origin.to_string(),
+        pristine: pristine(),
     };
     let s = serde_json::to_string_pretty(&rf).unwrap();
     if let Err(e) = std::fs::write(&path, s) {
@@ -539,11 +550,24 @@ pub fn tick() {
     PROGRESS.fetch_add(1, Ordering::Relaxed);
 }
 
+static PRISTINE: AtomicBool = AtomicBool::new(false);
+
+/// "Pristine process" mode: the harness must not call `RoundingMode::set_default` at all
+/// (every case then runs under the initial RoundHalfEven). A defect that is only active in a
+/// process where nobody ever changed the rounding mode - the normal situation of most users -
+/// is invisible to a harness that installs a mode before every case.
+pub fn pristine() -> bool {
+    PRISTINE.load(Ordering::Relaxed)
+}
+
 /// Entry point used by every property check.
 pub fn run_prop<P: Prop>(prop: P, opts: &Opts) -> ! {
     let t0 = Instant::now();
     install_silent_panic_hook();
     let id = prop.id();
+    if std::env::var("VERIF_PRISTINE").as_deref() == Ok("1") {
+        PRISTINE.store(true, Ordering::Relaxed);
+    }
     let known = KnownFindings::load(&opts.root);
     let prop = Arc::new(prop);
 
@@ -557,6 +581,9 @@ pub fn run_prop<P: Prop>(prop: P, opts: &Opts) -> ! {
             }
         };
         if let Ok(hf) = serde_json::from_str::<HistoryFile<P::Case>>(&s) {
+            if hf.pristine {
+                PRISTINE.store(true, Ordering::Relaxed);
+            }
             println!("replay {} property={id} (history of {} cases, evaluated in order on a fresh thread)", path.display(), hf.history.len());
             match eval_history(&prop, &known, &hf.history) {
                 Some((i, real)) => {
@@ -580,6 +607,10 @@ pub fn run_prop<P: Prop>(prop: P, opts: &Opts) -> ! {
                 std::process::exit(2)
             }
         };
+        if rf.pristine {
+            PRISTINE.store(true, Ordering::Relaxed);
+            println!("(replayed in a process that never calls RoundingMode::set_default)");
+        }
         let mut ctx = Ctx { trace: Some(Vec::new()), ..Ctx::default() };
         let r = catch(|| prop.check(&rf.case, &mut ctx));
         if let Err(m) = r {
@@ -929,6 +960,7 @@ pub fn run_prop<P: Prop>(prop: P, opts: &Opts) -> ! {
             history: hist,
             failures: real.iter().map(|f| (f.sig.clone(), f.detail.clone())).collect(),
             origin,
+            pristine: pristine(),
         };
         let _ = std::fs::write(&path, serde_json::to_string_pretty(&hf).unwrap());
         for f in real.iter().take(2) {
@@ -961,7 +993,7 @@ pub fn run_prop<P: Prop>(prop: P, opts: &Opts) -> ! {
 
     // ---------------- mandatory classes
     let mut missing = Vec::new();
-    if violations.is_empty() {
+    if violations.is_empty() && !pristine() {
         for l in prop.mandatory_labels(opts.tier) {
             if total.labels.get(l).copied().unwrap_or(0) == 0 {
                 missing.push(l);
@@ -1044,6 +1076,56 @@ pub fn run_prop<P: Prop>(prop: P, opts: &Opts) -> ! {
         }
     }
 
+    // ---------------- pristine process: a share of the run repeated by a fresh process of this
+    // binary in which the harness never calls set_default (all cases under the initial RoundHalfEven)
+    let mut pristine_report: Option<serde_json::Value> = None;
+    if violations.is_empty() && missing.is_empty() && !pristine() && prop.pristine_run() {
+        let cases = (opts.cases_override.unwrap_or_else(|| prop.cases(opts.tier)) / 4).max(1);
+        let waiting = Arc::new(AtomicBool::new(true));
+        {
+            let waiting = waiting.clone();
+            std::thread::spawn(move || {
+                while waiting.load(Ordering::Relaxed) {
+                    tick();
+                    std::thread::sleep(std::time::Duration::from_millis(500));
+                }
+            });
+        }
+        let exe = std::env::current_exe().expect("current exe");
+        let out = std::process::Command::new(&exe)
+            .arg(id)
+            .args(["--tier", opts.tier.name(), "--seed", &(opts.seed as i128).to_string(), "--jobs", &opts.jobs.to_string(), "--no-evidence", "--cases", &cases.to_string()])
+            .env("VERIF_PRISTINE", "1")
+            .env_remove("VERIF_SECOND_BIN")
+            .output();
+        waiting.store(false, Ordering::Relaxed);
+        match out {
+            Err(e) => {
+                println!("INCONCLUSIVE: cannot run {}: {e}", exe.display());
+                std::process::exit(2);
+            }
+            Ok(o) => {
+                let text = String::from_utf8_lossy(&o.stdout).to_string();
+                let code = o.status.code().unwrap_or(2);
+                if code != 0 {
+                    println!("--- in a fresh process that never calls RoundingMode::set_default (all cases under the initial RoundHalfEven):");
+                    for l in text.lines().filter(|l| !l.starts_with("labels:")) {
+                        println!("{l}");
+                    }
+                    std::process::exit(if code == 1 { 1 } else { 2 });
+                }
+                let evals = text
+                    .lines()
+                    .find(|l| l.starts_with(id) && l.contains("evaluations="))
+                    .and_then(|l| l.split("evaluations=").nth(1))
+                    .and_then(|r| r.split(' ').next())
+                    .and_then(|n| n.parse::<u64>().ok())
+                    .unwrap_or(0);
+                pristine_report = Some(serde_json::json!({"what": "fresh process, the harness never calls RoundingMode::set_default; every case judged under the initial RoundHalfEven", "evaluations": evals, "violations": 0}));
+            }
+        }
+    }
+
     // ---------------- evidence
     let wall = t0.elapsed().as_secs_f64();
     let mut samples: Vec<serde_json::Value> = Vec::new();
@@ -1087,6 +1169,9 @@ pub fn run_prop<P: Prop>(prop: P, opts: &Opts) -> ! {
         cov.insert("exhaustive".into(), any_exhaustive.into());
     }
     cov.insert("workers".into(), jobs.into());
+    if let Some(p) = pristine_report {
+        cov.insert("pristine_process_run".into(), p);
+    }
     if !second.is_empty() {
         cov.insert("other_builds".into(), serde_json::Value::Array(second));
     }
